@@ -153,9 +153,16 @@ def run_public(case, failures, hsh):
     evals = nontriv = states = 0
     count_list = case.get('counts') or [list(c) for c in itertools.product(COUNTS, repeat=n)]
     cats = {}
-    for rates in case['rates']:
+    plan = [(r_, 'plain') for r_ in case['rates']] + [(r_, 'array-scaled') for r_ in case['rates'][::2]]
+    for rates, fvar in plan:
         data = numpy.array(rates, dtype=float).reshape(nc, nm)
-        fc = fixtures.gridded_forecast(data, reg, mags)
+        if fvar == 'plain':
+            fc = fixtures.gridded_forecast(data, reg, mags)
+        else:
+            # the same rates reached through scale(<per-cell ndarray of shape (n_cells, 1)>), powers of two (exact)
+            a_ = numpy.array([[2.0, 0.5, 4.0, 0.25][c % 4] for c in range(nc)]).reshape(nc, 1)
+            fc = fixtures.gridded_forecast(data / a_, reg, mags)
+            fc.scale(a_)
         for counts in count_list:
             key = tuple(counts)
             if key not in cats:
@@ -174,9 +181,9 @@ def run_public(case, failures, hsh):
                     vc = [int(x) for x in cnt.ravel()]
                 nact = sum(1 for w in vc if w > 0)
                 npos = sum(1 for l in vr if l > 0)
-                cls = cls_of(vr, vc)
+                cls = cls_of(vr, vc) + (',forecast-scaled-by-a-per-cell-array' if fvar != 'plain' else '')
                 site = f'{mod.__name__.split(".")[-1]}.{fn.__name__}'
-                rep = dict(kind='public1', shape=case['shape'], rates=rates, counts=counts)
+                rep = dict(kind='public', shape=case['shape'], rates=[rates], counts=[counts])
                 simulate = nact <= npos
                 mids = rs.midpoints(vr)
                 script = [mids[i % len(mids)] for i in range(4 * len(mids))]
@@ -214,8 +221,18 @@ def run_public(case, failures, hsh):
                             res2 = fn(fc, cat, num_simulations=len(tuples), random_numbers=rn)
                         evals += len(tuples)
                         td2 = [float(x) for x in res2.test_distribution]
+                        posb = [k for k, r_ in enumerate(vr) if r_ > 0]
                         for t, call, entry in zip(tuples, spy2.calls, td2):
                             simc = [int(x) for x in call['out']]
+                            # the simulated catalog is the one the injected numbers define: each midpoint lies in the cumulative
+                            # interval of one positive-rate bin
+                            expc = [0] * len(vr)
+                            for u_ in t:
+                                expc[posb[mids.index(u_)]] += 1
+                            if len(mids) == len(posb) and [x > 0 for x in simc] != [x > 0 for x in expc]:
+                                failures.append(Fail(f'{site}|simulated-catalog-is-not-the-one-the-injected-numbers-define|injected-draws',
+                                                     f'{test}: injected draws {list(t)} (interval midpoints of bins {[posb[mids.index(u_)] for u_ in t]}) -> simulated counts {simc} (rates {vr})', rep))
+                                break
                             if test == 'Br':
                                 sw, sm = rs.brier(vr, simc), 2.0
                             else:
